@@ -61,7 +61,7 @@ func verifRequestCheck(ts *agent.VerifTS, body []byte) {
 
 // H_c01_request_raw: the whole body is L arbitrary bytes.
 func H_c01_request_raw() {
-	L := nondet_choice("L", verifRequestRawMaxL+1)
+	L := nondet_choice("L", verif_bound("request-raw-maxL", verifRequestRawMaxL, 28)+1)
 	ts := verifRequestState()
 	body := nondet_bytes("body", L)
 	verifRequestCheck(ts, body)
@@ -71,7 +71,7 @@ func H_c01_request_raw() {
 // agent id of A / B / C / unknown) followed by L arbitrary bytes.
 func H_c01_request_hdr() {
 	who := nondet_choice("who", 4)
-	L := nondet_choice("L", verifRequestRestMaxL+1)
+	L := nondet_choice("L", verif_bound("request-rest-maxL", verifRequestRestMaxL, 18)+1)
 	ts := verifRequestState()
 	ids := []uint32{0x11223344, 0x5566aabb, 0x8badf00d, 0x01020304}
 	id := ids[who]
